@@ -536,7 +536,8 @@ Lemma r_hb_shape w r n fi la c :
       (mkR (r_base r) (r_known r) c (r_anc r + 1 + Z.of_nat (length (filter (fun sn => fhas sn (r_asm r)) ms)))
            (r_asm r) (r_got r),
        (if isnil nfs then [] else [nfs]) ++
-       [[SAck (r_base r) (filter (fun sn => negb (fhas sn (r_asm r))) ms) (r_anc r)]])
+       [[SAck (r_base r) (filter (fun sn => negb (fhas sn (r_asm r))) ms)
+              (r_anc r + Z.of_nat (length (filter (fun sn => fhas sn (r_asm r)) ms)))]])
     /\ (forall m, In m nfs -> exists sn f0 bits k bv,
           m = SNackFrag sn f0 bits k /\ In sn ms /\ fget sn (r_asm r) = Some bv
           /\ In f0 (bidx false 1 bv) /\ bits = filter (fun f => f <=? f0 + 255) (bidx false 1 bv)
@@ -576,7 +577,7 @@ Proof.
     set (partial := filter (fun sn0 => fhas sn0 (r_asm r)) ms).
     assert (Hp : In sn partial) by (apply filter_In; split; [exact Hsn | apply fhas_spec; eauto]).
     destruct (In_nth _ _ 0 Hp) as [i [Hi Hn]].
-    set (ks := zrange (r_anc r + 1) (length partial)).
+    set (ks := zrange (r_anc r) (length partial)).
     assert (Hk : In (sn, nth i ks 0) (combine partial ks)).
     { rewrite <- Hn at 1. rewrite <- combine_nth by (unfold ks; rewrite zrange_length; reflexivity).
       apply nth_In. rewrite combine_length. unfold ks. rewrite zrange_length. lia. }
